@@ -47,6 +47,9 @@ pub struct Case {
     pub w_parameter: Vec<Vec<f64>>,
     pub w_gv: Vec<Vec<f64>>,
     pub identical: bool,
+    /// order in which the accessors of the one Models value are called: 0 duration first, 1 streams
+    /// in reverse and duration last, 2 every accessor twice (the first answer is discarded)
+    pub access_order: usize,
 }
 
 /// Dyadic weights k/64 summing to exactly 1; modes: vertex, simplex interior, negative / over-unity.
@@ -159,7 +162,7 @@ impl Prop for Interpolation {
                 set(w);
             }
         }
-        Case { family, source: src.name().into(), labels, w_duration, w_parameter, w_gv, identical }
+        Case { family, source: src.name().into(), labels, w_duration, w_parameter, w_gv, identical, access_order: t.weighted(&[2, 1, 1]) }
     }
     fn check(&self, c: &Case) -> Result<Report, Failure> {
         let mut tmps = Vec::new();
@@ -220,8 +223,22 @@ impl Prop for Interpolation {
         };
         let mut rep = Report::new();
         let mut differing = false;
-        // duration
-        let dur = models.duration();
+        // all answers of the one Models value, requested in the case's order
+        let mut dur = None;
+        let mut streams_got: Vec<Option<jbonsai::model::ModelStream>> = (0..nstreams).map(|_| None).collect();
+        let seq: Vec<usize> = match c.access_order {
+            0 => (0..=nstreams).collect(),
+            1 => (0..=nstreams).rev().collect(),
+            _ => (0..=nstreams).rev().chain(0..=nstreams).collect(),
+        };
+        for k in seq {
+            if k == 0 {
+                dur = Some(models.duration());
+            } else {
+                streams_got[k - 1] = Some(models.model_stream(k - 1));
+            }
+        }
+        let dur = dur.unwrap_or_default();
         ensure!(dur.len() == labels.len() * nstate, "interp-shape", "duration length {}", dur.len());
         for (li, l) in labels.iter().enumerate() {
             let per: Vec<_> = voices.iter().map(|v| v.duration_model.get_parameter(2, l)).collect();
@@ -234,7 +251,7 @@ impl Prop for Interpolation {
         }
         // streams and GV
         for i in 0..nstreams {
-            let ms = models.model_stream(i);
+            let Some(ms) = streams_got[i].take() else { fail!("harness", "stream {} not requested", i) };
             ensure!(ms.stream.len() == labels.len() * nstate, "interp-shape", "stream {} length {}", i, ms.stream.len());
             let w = &c.w_parameter[i];
             for (li, l) in labels.iter().enumerate() {
